@@ -82,6 +82,11 @@ def main():
                                  "other": [l[:200] for l in out.splitlines() if l.startswith(("BROKEN", "DRIFT", "OK"))][:3], "wall_s": round(time.time() - t0, 1)}
             print(p, tier, "exit", rc, "violations", len(vio))
         meta["detected"] = any(c["exit"] == 1 for c in meta["checks"].values())
+        # a check that could not run (exit 2: e.g. the harness was being edited) says nothing: run it again
+        broken = [p for p, c in meta["checks"].items() if c["exit"] not in (0, 1)]
+        if broken and not meta["detected"]:
+            meta["detected"] = None
+            print("CHECK BROKEN (exit 2) for", broken, "- result void, run again")
     finally:
         sh("git -C /repo worktree remove --force %s" % wt)
         shutil.rmtree(wt, ignore_errors=True)
